@@ -1427,8 +1427,8 @@ def palette_defs(r, quick):
     fg16 = ["default", "dark red", "light red,bold", "white,underline,standout"]
     bg16 = ["default", "dark blue", "light gray", "yellow"]
     monos = [None, "bold", "underline,standout", ("italics", "blink"), "strikethrough"]
-    fgh = [None, "h17", "#f80,bold", "g#80", "#804020", "light green", "default,italics", "h9"]
-    bgh = [None, "h250", "#08f", "g19", "#fedcba", "dark gray", "default"]
+    fgh = [None, "h17", "#f80,bold", "g#80", "#804020", "light green", "default,italics", "h9", ""]
+    bgh = [None, "h250", "#08f", "g19", "#fedcba", "dark gray", "default", ""]
     prod = []
     k = 0
     for f in fg16:
@@ -1453,6 +1453,33 @@ def palette_defs(r, quick):
         if i % 7 == 0:
             defs.append((f"alias_of_{d[0]}", d[0]))
     out.append(("product", defs))
+    # every KIND of value in the optional fields against 16-colour fields that carry a colour and settings.  The documented
+    # reading (register_palette_entry): in foreground_high / background_high None -- and only None -- means "use the
+    # foreground / background value"; "" and "default" name the default colour (so the 16-colour colour AND its settings
+    # must not show at 88 / 256 / 2**24 colours); a setting without a colour leaves the colour default; mono None / "" /
+    # "default" are all "no settings".  3- and 4-value forms are the 6-value form with the missing fields None.
+    f16 = ["light red,bold", "dark green,underline", "yellow,bold,underline", "default,bold", "white"]
+    b16 = ["dark blue", "light gray", "default"]
+    high_f = [None, "", "default", "bold", "default,underline", "#f80", "light blue,standout", "h9"]
+    high_b = [None, "", "default", "#08f", "dark gray", "h250"]
+    mono_k = [None, "", "default", "bold", ("underline", "standout")]
+    kinds = []
+    k = 0
+    for f in f16:
+        for b in b16:
+            kinds.append((f"k3_{k}", f, b))
+            kinds.append((f"k4_{k}", f, b, mono_k[k % len(mono_k)]))
+            for fh in high_f:
+                for bh in high_b:
+                    k += 1
+                    if quick and fh not in (None, "", "default") and bh not in (None, "", "default") and k % 4:
+                        continue  # (colour x colour is the product palette's subject; the None / "" / "default" rows are kept whole)
+                    kinds.append((f"k6_{k}", f, b, mono_k[k % len(mono_k)], fh, bh))
+                    if fh == "" or bh == "":
+                        kinds.append((f"alias_of_k6_{k}", f"k6_{k}"))
+                        if k % 5 == 0:
+                            kinds.append((f"alias2_of_k6_{k}", f"alias_of_k6_{k}"))
+    out.append(("optional-field-kinds", kinds))
     return out
 
 
@@ -1477,7 +1504,7 @@ def run_palette_check(tier, r):
                             # keep the detail replayable but small: only the entries this name depends on
                             d["palette"] = repr(_closure(defs, name))
                         (chk_a if is_alias else chk).case((label, repr(name), depth, bib, order), ok, d, sample={"palette": label, "name": repr(name), "colors": depth, "bright_is_bold": bib, "order": order})
-    chk.bound = chk_a.bound = "3 palettes (25 hand-written entries of every form incl. alias chains, non-string names and re-registration; a base entry plus one alias; a product of 4 fg x 4 bg x 5 mono x 8 fg_high x 7 bg_high strings with an alias after every 7th entry) x colours {1,16,88,256,2**24} x bright_is_bold off/on x 3 call orders (palette before the terminal properties, after them, entry by entry); 3 undefined attributes and None in every drawing"
+    chk.bound = chk_a.bound = "4 palettes (25 hand-written entries of every form incl. alias chains, non-string names and re-registration; a base entry plus one alias; a product of 4 fg x 4 bg x 5 mono x 9 fg_high x 8 bg_high strings with an alias after every 7th entry; 5 fg x 3 bg with a colour and settings as 3-, 4- and 6-value entries whose foreground_high / background_high are each of None, '', 'default', a setting alone, default + setting, colours (8 x 6 kinds; quick: colour x colour pairs sampled 1 in 4) and mono each of None, '', 'default', settings, tuple, with aliases and alias chains of every entry that has an empty high field) x colours {1,16,88,256,2**24} x bright_is_bold off/on x 3 call orders (palette before the terminal properties, after them, entry by entry); 3 undefined attributes and None in every drawing"
     return [chk.result(), chk_a.result()]
 
 
